@@ -406,6 +406,46 @@ func C08(r *h.Run) {
 		}
 	}
 
+	// ---- what a pooled decompressor sees on each exit branch of Decompress (compared with CPool.decompress_trace) ----
+	for _, sc := range []struct {
+		name, coq string
+		wire      []byte
+	}{
+		{"valid message", "(DOk true)", []byte{2, 'a', 1, 'b'}},
+		{"corrupt stream (fails in Read)", "DReadFails", []byte{3, 'a', 7}},
+		{"inflates beyond the read limit", "(DTooLarge true)", []byte{255, 'x', 255, 'y'}},
+		{"source rejected by Reset", "DResetFails", []byte{'!', 1, 2}},
+	} {
+		for rep := 0; rep < 2; rep++ { // the second time the object comes from the pool
+			tr := &h.Tracker{}
+			handler := connect.NewUnaryHandler("/verif.Svc/M", func(_ context.Context, req *connect.Request[h.Raw]) (*connect.Response[h.Raw], error) {
+				return connect.NewResponse(&h.Raw{B: req.Msg.B}), nil
+			}, connect.WithCodec(h.ToyCodec{}), h.WithTrackedRLE(tr), connect.WithReadMaxBytes(256), connect.WithCompressMinBytes(1<<20))
+			post := func(body []byte) {
+				req := httptest.NewRequest(http.MethodPost, "/verif.Svc/M", bytes.NewReader(body))
+				req.Header.Set("Content-Type", "application/toy")
+				req.Header.Set("Content-Encoding", "rle")
+				handler.ServeHTTP(httptest.NewRecorder(), req)
+			}
+			if rep == 1 {
+				post([]byte{1, 'w'}) // warm the pool
+				tr.Events()
+			}
+			post(sc.wire)
+			ev := tr.Events()
+			var coqEv []string
+			for _, e := range ev {
+				coqEv = append(coqEv, "O"+e)
+			}
+			r.Eval("decompress_trace", fmt.Sprint(sc.name, rep))
+			r.Sample("decompress_trace", map[string]any{"branch": sc.name, "pooled_object_reused": rep == 1, "events": ev})
+			r.Case("decompress_trace", fmt.Sprintf("DecompTrace %s %s", sc.coq, h.CoqList(coqEv)), map[string]any{"branch": sc.name, "pooled_object_reused": rep == 1, "impl_events": ev})
+			for _, pr := range tr.Snapshot() {
+				r.Fail(h.Failure{Key: "pool/decompressor-shared", Family: "decompress_trace", What: pr, Input: map[string]any{"branch": sc.name}})
+			}
+		}
+	}
+
 	// ---- a corrupt compressed message must not leave a pooled decompressor shared between
 	// later calls: tracked decompressors, then concurrent valid calls ----
 	for round := 0; round < r.N(4, 20); round++ {
